@@ -3,6 +3,10 @@
    hand from the JSON tags of eth.Header / eth.Tx (what eth_getBlockByNumber
    decodes) and from the assignments in receipts(), logs(), traces(); tied to
    the code by the correspondence run of C14 (observed supplied-matrix).
+   The relation does not depend on what earlier requests attached to a (cached,
+   shared) block: receipts() overwrites hash/type/from/to of the transaction it
+   finds (C07: rcpt_block_spec, for an arbitrary base block); the sequence
+   stream of the C14 driver exercises exactly that.
    Definitions only. *)
 From Coq Require Import List String Bool.
 From Shovel Require Import Model.Plan.
